@@ -362,6 +362,13 @@ func main() {
 			}
 		}
 	}
+	// command NAMES drawn from the token alphabet (unknown commands echo their name in the error reply)
+	for _, t := range tokens {
+		one([][]byte{t}, "enum")
+		for _, u := range tokens {
+			one([][]byte{t, u}, "enum")
+		}
+	}
 	nEnum := idx
 	// Mut
 	if !*noMut {
